@@ -128,11 +128,13 @@ func (c *Client) Call(ctx Context, method string, arg, resp interface{}) error {
 		// TODO: Don't lose the error type here.
 		return fmt.Errorf("%s: %v", errAt, err)
 	}
+	// The handler's response headers belong to this call whether or not it answered with an
+	// application error: store them first, so that a context used for several calls never
+	// keeps the response headers of an earlier call.
+	ctx.SetResponseHeaders(respHeaders)
 	if !isOK {
 		return respErr
 	}
-
-	ctx.SetResponseHeaders(respHeaders)
 	return nil
 }
 
@@ -144,11 +146,10 @@ func wrapCall(ctx Context, call *tchannel.OutboundCall, method string, arg, resp
 	if err != nil {
 		return fmt.Errorf("%s: %v", errAt, err)
 	}
+	ctx.SetResponseHeaders(respHeaders)
 	if !isOK {
 		return respErr
 	}
-
-	ctx.SetResponseHeaders(respHeaders)
 	return nil
 }
 
